@@ -30,3 +30,20 @@ pub fn vfind2<'a, T, F: Fn(&T) -> bool>(v: &'a [T; 2], f: F) -> (r: Option<&'a T
     if f(&v[1]) { return Some(&v[1]); }
     None
 }
+pub fn vunwrap_or_else<T, F: FnOnce() -> T>(o: Option<T>, f: F) -> (r: T)
+    requires f.requires(()),
+    ensures match o { Some(v) => r == v, None => f.ensures((), r) },
+{
+    match o { Some(v) => v, None => f() }
+}
+pub fn vmap2<T, U, F: Fn(&T) -> U>(v: &[T; 2], f: F) -> (r: Vec<U>)
+    requires f.requires((&v[0],)), f.requires((&v[1],)),
+    ensures r@.len() == 2, f.ensures((&v[0],), r@[0]), f.ensures((&v[1],), r@[1]),
+{
+    let a = f(&v[0]);
+    let b = f(&v[1]);
+    let mut out: Vec<U> = Vec::new();
+    out.push(a);
+    out.push(b);
+    out
+}
